@@ -259,7 +259,7 @@ def handleFull (cfgS inpS alnumS : String) : String :=
     | none => "model-none"
     | some out =>
       -- the premises of `C09.C09_format_full_crlf_config` on this input (tally only)
-      let c09 := if CrlfFull.crlfOk cfg (fun b => alnum.contains b) inp then "hold" else "no"
+      let c09 := if CrlfFull.crlfOk23 cfg (fun b => alnum.contains b) inp then "hold" else "no"
       -- the premise of `C03.C03_format_full_checked`: the output is another layout of the input's tokens (tally only)
       let c03 := layoutStatus cfg (fun b => alnum.contains b) inp out
       -- the premise of `C08.C08_format_full_checked` (tally only)
@@ -280,7 +280,7 @@ def handleFull2 (cfgS inpS inp2S alnumS : String) : String :=
     match formatFull cfg al inp, formatFull cfg al inp2 with
     | some out, some out2 =>
       let status := layoutStatus cfg al inp inp2
-      let thm := if layoutPremisesB cfg al inp inp2 then (if out == out2 then "ok" else "BROKEN") else "na"
+      let thm := if layoutPremisesB' cfg al inp inp2 then (if out == out2 then "ok" else "BROKEN") else "na"
       s!"out={toHex out}\tout2={toHex out2}\tinfo_c06={status}\tinfo_c06thm={thm}"
     | _, _ => "model-none"
   | _, _, _, _ => "bad-record"
